@@ -42,6 +42,7 @@ def cases(tier, seed):
             out.append((fam, th, tier, 'points'))
             out.append((fam, th, tier, 'integrals'))
         out.append((fam, 0.0, tier, 'history'))
+    out.append(('independence', 0.0, tier, 'independence'))
     return out
 
 
@@ -73,12 +74,51 @@ def _layouts(r, f, P, name, sig, case, fam, th):
     return alone
 
 
+def _independence(r, g, sig, case):
+    """The parameter-free fourth family: C = uv, dC/dv = u, density 1 on the unit square; same batch layouts."""
+    from copulas.bivariate.base import Bivariate
+    from copulas.bivariate.independence import Independence
+    for how, cop in (('Independence()', Independence()), ("Bivariate(copula_type='independence')",
+                                                           Bivariate(copula_type='independence'))):
+        P = grid_pairs([0.0] + g + [1.0], g)
+        h = _layouts(r, cop.partial_derivative, P, 'partial_derivative', sig, case, 'independence', None)
+        c = _layouts(r, cop.probability_density, P, 'probability_density', sig, case, 'independence', None)
+        C = _layouts(r, cop.cumulative_distribution, P, 'cumulative_distribution', sig, case, 'independence', None)
+        with np.errstate(all='ignore'):
+            lc = np.asarray(cop.log_probability_density(P.copy()), float)
+        r.ev(4 * len(P))
+        r.nontriv()
+        r.state(('independence', how))
+        if not np.array_equal(h, P[:, 0]):
+            r.violation(f'{sig}:h:value', f'{how}: partial_derivative is not dC/dv = u', case=case)
+        if not np.array_equal(c, np.ones(len(P))):
+            r.violation(f'{sig}:pdf:value', f'{how}: probability_density is not 1 on the unit square', case=case)
+        if not np.allclose(C, P[:, 0] * P[:, 1], rtol=0, atol=1e-15):
+            r.violation(f'{sig}:cdf:value', f'{how}: cumulative_distribution is not u*v', case=case)
+        if not np.array_equal(lc, np.zeros(len(P))):
+            r.violation(f'{sig}:logpdf', f'{how}: log_probability_density is not log(pdf) = 0', case=case)
+        # the documented shortcuts pdf / cdf / ppf are the same functions
+        for short, long_, args in (('pdf', 'probability_density', (P.copy(),)), ('cdf', 'cumulative_distribution', (P.copy(),)),
+                                   ('ppf', 'percent_point', (P[:, 0].copy(), P[:, 1].copy()))):
+            a1 = np.asarray(getattr(cop, short)(*[x.copy() for x in args]), float)
+            a2 = np.asarray(getattr(cop, long_)(*[x.copy() for x in args]), float)
+            r.tr(2)
+            if not np.array_equal(a1, a2, equal_nan=True):
+                r.violation(f'{sig}:shortcut:{short}', f'{how}: {short} differs from {long_}', case=case)
+    r.outcome('independence')
+    r.hit('independence')
+    r['sample'] = {'family': 'independence', 'grid': len(g)}
+    return r
+
+
 def run_case(case):
     from mc.ref.archimedean import Ref
     fam, th, tier, part = case
     r = engine.new_result()
     sig = f'C07:{fam}'
     g = list(A.tier_grid(tier))
+    if part == 'independence':
+        return _independence(r, g, sig, case)
     if part != 'history':
         cop = make_biv(fam, th)
         ref = Ref(fam, th)
@@ -153,6 +193,13 @@ def run_case(case):
             i = int(np.nonzero(~ok)[0][0])
             r.violation(f'{sig}:logpdf', f'{fam} theta={th}: log_probability_density{tuple(Q[i])}={lp[i]!r} != '
                         f'log(pdf)={np.log(c[i])!r}', case=case)
+    # the documented shortcuts pdf / cdf are the same functions as the long names
+    for short, long_ in (('pdf', 'probability_density'), ('cdf', 'cumulative_distribution')):
+        a1 = np.asarray(getattr(cop, short)(Q.copy()), float)
+        a2 = np.asarray(getattr(cop, long_)(Q.copy()), float)
+        r.tr(2)
+        if not np.array_equal(a1, a2, equal_nan=True):
+            r.violation(f'{sig}:shortcut:{short}', f'{fam} theta={th}: {short} differs from {long_}', case=case)
     for u, v in Q:
         r.state((fam, th, float(u), float(v)))
     r.nontriv(len(Q))
@@ -221,3 +268,4 @@ def finish(agg, tier):
         engine.require(agg['hits'].get(f'family:{fam}', 0) >= 6, f'family {fam} under-explored')
     engine.require(agg['hits'].get('integral-cases', 0) >= 20, 'integral cases missing')
     engine.require(agg['hits'].get('history-cases', 0) == 3, 'history cases missing')
+    engine.require(agg['hits'].get('independence', 0) == 1 or any('independence' in v['sig'] for v in agg['viol']), 'independence case missing')
